@@ -11,7 +11,26 @@ import sys
 import time
 
 REPLY_KINDS = ["sat", "rc1_sat", "sat_nomodel", "sat_invalid", "sat_badmodel", "unsat", "unsat_rc1", "unsat_cr",
+               "unsat_core0", "unsat_core1", "unsat_core2", "unsat_nocore",
                "unknown", "hang", "garbage", "empty", "crash"]
+
+# `unsat` replies differ in the core list printed for (get-unsat-core) when the query asks for cores:
+#   unsat / unsat_rc1 / unsat_cr : every named assertion      unsat_core0 : the empty list `()`
+#   unsat_core1 / unsat_core2    : the first 1 / 2 names      unsat_nocore : no list at all
+UNSAT_KINDS = ("unsat", "unsat_rc1", "unsat_cr", "unsat_core0", "unsat_core1", "unsat_core2", "unsat_nocore")
+
+
+def core_names(kind, names):
+    """names printed as the unsat core for a query whose named assertions are `names` (None: no list)."""
+    if kind == "unsat_core0":
+        return []
+    if kind == "unsat_core1":
+        return names[:1]
+    if kind == "unsat_core2":
+        return names[:2]
+    if kind == "unsat_nocore":
+        return None
+    return list(names)
 
 
 def reply_text(kind, text=""):
@@ -33,11 +52,11 @@ def reply_text(kind, text=""):
     elif kind == "sat_badmodel":
         # a halmos_* name without the expected name_type_uid parts: the model parser raises
         out = "sat\n(\n  (define-fun halmos_x () (_ BitVec 256)\n    #x00)\n)\n"
-    elif kind in ("unsat", "unsat_rc1", "unsat_cr"):
+    elif kind in UNSAT_KINDS:
         core = ""
         if "produce-unsat-cores" in text:
-            names = re.findall(r":named (<[0-9]+>)", text)
-            core = "(" + " ".join(names) + ")\n"
+            names = core_names(kind, re.findall(r":named (<[0-9]+>)", text))
+            core = "" if names is None else "(" + " ".join(names) + ")\n"
         nl = "\r\n" if kind == "unsat_cr" else "\n"
         out = "unsat" + nl + '(error "line 1 column 1: model is not available")\n' + core
         if kind == "unsat_rc1":
